@@ -51,6 +51,18 @@ def gen(seed, idx, tier):
         scn["options"]["terminal_psi"] = rnd.choice([0.0, None])
     kind = rnd.choice(["linear", "linear", "quadratic"])
     c = [scen.r3(rnd.uniform(-0.6, 0.6)), scen.r3(rnd.uniform(-0.6, 0.6))]
+    if rnd.random() < 0.35:
+        # a large uniform shift (|A| >> its change per step) on top of a slowly varying field:
+        # anything that decides "has A changed?" relative to |A| becomes gauge dependent
+        mag = rnd.choice([10.0, 100.0, 1000.0])
+        c = [scen.r3(mag * rnd.uniform(0.3, 1.0) * rnd.choice([1, -1])), scen.r3(mag * rnd.uniform(0.3, 1.0) * rnd.choice([1, -1]))]
+        kind = "linear"
+        if not screening and rnd.random() < 0.7:
+            steps = scn["meta"]["steps"]
+            rel = rnd.choice([1e-2, 1e-3, 1e-4, 1e-5])
+            B0 = scn["drive"]["field"].get("B") or 0.3
+            scn["drive"]["field"] = {"kind": "ramp", "B": B0, "tmin": 0.0, "tmax": scn["options"]["solve_time"], "initial": 1.0, "final": 1.0 + rel * steps * rnd.choice([1, 30])}
+            scn["meta"]["slow_rel"] = rel
     q = [0.0, 0.0, 0.0]
     if kind == "quadratic":
         q = [scen.r3(rnd.uniform(-0.15, 0.15)) for _ in range(3)]
